@@ -350,6 +350,89 @@ theorem Dur_runFrom (rv : Rotonda.Rib.Variant) {v : MVariant} (us : List Update)
   | nil => exact h
   | cons u us ih => exact ih (s := St.apply rv v s u) (Dur_apply rv h u)
 
+/-! ### which ingresses have an e2e sample -/
+
+def e2eKeys (m : Metrics) : List Mui := m.e2e.map Prod.fst
+
+/-- One sample per ingress, and exactly for the ingress ids in `ms`. -/
+structure EK (ms : List Mui) (m : Metrics) : Prop where
+  nd : (e2eKeys m).Nodup
+  mem : ∀ x, x ∈ e2eKeys m ↔ x ∈ ms
+
+theorem EK_empty : EK [] Metrics.empty := ⟨by simp [e2eKeys, Metrics.empty], by simp [e2eKeys, Metrics.empty]⟩
+
+theorem EK_congr {ms ms' : List Mui} {m : Metrics} (h : EK ms m) (hm : ∀ x, x ∈ ms ↔ x ∈ ms') : EK ms' m :=
+  ⟨h.nd, fun x => (h.mem x).trans (hm x)⟩
+
+theorem EK_insertOk {ms : List Mui} {m : Metrics} (h : EK ms m) (v : MVariant) (ing : Mui) (n : Nat) (e : Effect) :
+    EK (ms ++ [ing]) (m.insertOk v ing n e) := by
+  have hk : e2eKeys (m.insertOk v ing n e) = (upsert ing v.durationFix m.e2e).map Prod.fst := by
+    unfold Metrics.insertOk e2eKeys
+    rw [(effect_e2e _ e).1]
+  constructor
+  · rw [hk]; exact nodup_keys_upsert _ _ _ h.nd
+  · intro x
+    rw [hk, mem_keys_upsert, List.mem_append, List.mem_singleton]
+    have := h.mem x
+    unfold e2eKeys at this
+    rw [this]
+    exact Or.comm
+
+/-- The store's answer as `insert_payload` sees it and the ledger's classification agree. -/
+theorem report_kind (r : Rib) (pl : Payload) :
+    (report r pl = .failed ∧ (kind r pl).accepted = false) ∨ (∃ pn, report r pl = .ok pn ∧ (kind r pl).accepted = true) := by
+  unfold report kind
+  by_cases hk : pl.route.pfx ∈ (r.store pl.route.mc).known <;>
+    cases pl.ctx <;> cases pl.status <;> simp [hk, Kind.accepted]
+
+theorem EK_payload {ms : List Mui} {m : Metrics} (h : EK ms m) (v : MVariant) (r : Rib) (pl : Payload) :
+    EK (ms ++ (if (kind r pl).accepted then [pl.mui] else [])) (m.payload v (report r pl) pl) := by
+  rcases report_kind r pl with ⟨hr, ha⟩ | ⟨pn, hr, ha⟩
+  · rw [hr, ha]
+    have h' : EK ms (m.payload v .failed pl) := ⟨h.nd, h.mem⟩
+    exact EK_congr h' (fun x => by simp)
+  · rw [hr, ha]
+    simp only [if_true]
+    cases hst : pl.status
+    · have e : m.payload v (.ok pn) pl = m.insertOk v pl.mui 0 (if pn then .routeAdded else .routeUpdated) := by
+        simp only [Metrics.payload, hst]
+      rw [e]; exact EK_insertOk h _ _ _ _
+    · cases hw : v.wdEffectFix
+      · have e : m.payload v (.ok pn) pl = (m.insertOk v pl.mui 0 (if pn then .routeAdded else .routeUpdated)).insertOk
+            v pl.mui 0 (.routesWithdrawn 1) := by
+          simp only [Metrics.payload, hst, hw, Bool.false_eq_true, if_false]
+        rw [e]
+        exact EK_congr (EK_insertOk (EK_insertOk h v pl.mui 0 _) v pl.mui 0 _) (fun x => by simp)
+      · have e : m.payload v (.ok pn) pl = m.insertOk v pl.mui 0 (.routesWithdrawn 1) := by
+          simp only [Metrics.payload, hst, hw, if_true]
+        rw [e]; exact EK_insertOk h _ _ _ _
+
+theorem EK_core {ms : List Mui} {m m' : Metrics} (h : EK ms m) (hc : core m' = core m) : EK ms m' := by
+  have e1 : e2eKeys m' = e2eKeys m := by have := congrArg e2eKeys hc; exact this
+  exact ⟨e1 ▸ h.nd, fun x => e1 ▸ h.mem x⟩
+
+theorem EK_payloads (v : MVariant) (ps : List Payload) {ms : List Mui} {s : St} (h : EK ms s.mx) :
+    EK (ms ++ okMuisP s.rib ps) (ps.foldl (St.payload v) s).mx := by
+  induction ps generalizing ms s with
+  | nil => simpa [okMuisP] using h
+  | cons p ps ih =>
+    have := ih (s := St.payload v s p) (EK_payload h v s.rib p)
+    simpa [okMuisP, St.payload, List.append_assoc] using this
+
+theorem EK_apply (rv : Rotonda.Rib.Variant) (v : MVariant) {ms : List Mui} {s : St} (h : EK ms s.mx) (u : Update) :
+    EK (ms ++ okMuisP s.rib (payloadsOf u)) (St.apply rv v s u).mx := by
+  have key : ∀ s' : St, EK (ms ++ okMuisP s.rib (payloadsOf u)) s'.mx →
+      EK (ms ++ okMuisP s.rib (payloadsOf u)) ((Rib.forwards u).foldl Metrics.gate s'.mx) :=
+    fun s' h' => EK_core h' (core_foldl_gate _ _)
+  cases u with
+  | single p => exact key (St.payload v s p) (by simpa [payloadsOf] using EK_payloads v [p] h)
+  | bulk ps => exact key (ps.foldl (St.payload v) s) (by simpa [payloadsOf] using EK_payloads v ps h)
+  | withdraw m af => exact key ⟨s.rib.apply rv (.withdraw m af), s.mx⟩ (by simpa [payloadsOf, okMuisP] using h)
+  | withdrawBulk ms' => exact key ⟨s.rib.apply rv (.withdrawBulk ms'), s.mx⟩ (by simpa [payloadsOf, okMuisP] using h)
+  | endOfStream => exact key ⟨s.rib, s.mx⟩ (by simpa [payloadsOf, okMuisP] using h)
+  | outputStream => exact key ⟨s.rib, s.mx⟩ (by simpa [payloadsOf, okMuisP] using h)
+  | queryResult => exact key ⟨s.rib, s.mx⟩ (by simpa [payloadsOf, okMuisP] using h)
+
 /-! ### slots and records: which prefixes `unique_prefixes` counts -/
 
 /-- Slots are listed once, and a prefix with a record has a slot. -/
